@@ -270,3 +270,43 @@ NOT_APPLICABLE = {
     'C20': "quantifies over thread schedules and call histories; Kani has no thread support and the Verus units contain no shared state to attach "
            "permissions to (functional postconditions give per-call determinism only, which is recorded under the other properties, not claimed here)",
 }
+
+
+# where the contract of a stub (external_body) used inside one unit is established - shown next to each entry of coverage.trusted_base.
+# Patterns are matched against `Type::name` of the stub; the first match wins; no match = assumed (listed under the property's assumptions).
+PROVENANCE = [
+    (r'^external_body:ax_neg_one_value$', 'value of the constant: checked as a closed term in unit consts'),
+    (r'^external_body:ax_|^external_body:lemma_', 'axiom / lemma statement of the specification layer (see the property\'s assumptions)'),
+    (r'^uninterp:', 'uninterpreted specification symbol'),
+    (r'^external_body:(Fq|Fr)::(add_assign|sub_assign|mul_assign|square|negate|double|zero|one|is_zero|eq|cmp|partial_cmp|into_repr|from_repr|inverse|legendre|pow)$', 'contract proved in unit mont (C08)'),
+    (r'^external_body:Fq::sqrt$', 'proved in unit mont up to Euler\'s criterion (A8)'),
+    (r'^external_body:(FqRepr|FrRepr)::(read_be|write_be)$', 'byte order proved by the kani:limbs harnesses (C08); a generic stream enters through D2'),
+    (r'^external_body:(FqRepr|FrRepr)::', 'limb-level contract proved by unit kani:limbs (C08)'),
+    (r'^external_body:(mac_with_carry|adc)$', 'proved by unit kani:limbs (C08)'),
+    (r'^external_body:BitIterator::', 'contract proved in unit ffdep on the pinned ff-zeroize source'),
+    (r'^external_body:(Fq2|Fq6|Fq12)::(sqrt)$', 'unit order: algebraic contract; the rest is A8\''),
+    (r'^external_body:Fq2::(pow)$', 'contract proved in unit order'),
+    (r'^external_body:(Fq2|Fq6|Fq12)::', 'contract proved in unit tower (C09)'),
+    (r'^external_body:(G1|G2)::(double|add_assign|sub_assign|add_assign_mixed|sub_assign_mixed|negate|into_affine|is_zero|is_normalized|zero|eq)$', 'group-level statement of the contract proved in unit curve (C01), through A3'),
+    (r'^external_body:(G1Affine|G2Affine)::(into_projective|is_zero|negate|zero)$', 'unit curve (C01), through A3'),
+    (r'^external_body:(G1Affine|G2Affine)::(is_on_curve|in_subgroup|mul|mul_bits|scale_by_cofactor)$', 'contract proved in unit scalar (C07 / C02)'),
+    (r'^external_body:(G1Affine|G2Affine)::get_point_from_x$', 'contract proved in unit recover (C18)'),
+    (r'^external_body:(G1Affine|G2Affine)::find_pippinger_window$', 'proved by unit kani:window (C10)'),
+    (r'^external_body:(G1Affine|G2Affine)::sum_of_products_pippinger$', 'contract proved in unit msm (C10)'),
+    (r'^external_body:G[12](Compressed|Uncompressed)::from_affine$', 'contract proved in unit encode (C05)'),
+    (r'^external_body:G[12](Compressed|Uncompressed)::into_affine(_unchecked)?$', 'contract proved in unit codec (C04)'),
+    (r'^external_body:(G1|G2)::(clear_h|isogeny_map|osswu_map)$', 'contracts of units cofactor (C17) / symx:iso (C16) / sswu (C15)'),
+    (r'^external_body:(G1Affine|G2Affine)::get_coeff_b$|^external_body:Fr::char$|^external_body:ax_neg_one_value$', 'value of the constant: checked as a closed term in unit consts'),
+    (r'^external_body:Sgn0Result::eq$', 'derived PartialEq of a field-less enum: structural equality'),
+    (r'^external_body:Error::new$|^external_body:repr_to_string$|^external_body:vec_from_elem$', 'error construction / allocation helper without a functional contract'),
+]
+
+
+def provenance(unit, entry):
+    import re as _re
+    for pat, note in PROVENANCE:
+        if _re.search(pat, entry):
+            return '  [' + note + ']'
+    if entry.startswith('external_body:'):
+        return '  [assumed: see the assumptions of the property]'
+    return ''
